@@ -148,9 +148,9 @@ CLAIMED = {
             "analysis on every run: kernel-decided 'every write site belongs to a documented in-place routine' ⇒ any call history "
             "leaves all argument objects unchanged (induction over the history) + dynamic call-history check with deep snapshots",
             "Theorem C16_partial (all_sites_documented is re-decided on the regenerated table); histories of 2-8 constructor calls sharing "
-            "dicts, IMF objects, lists and arrays: arguments unchanged, results bit-identical to fresh builds, in-place routines return "
-            "their arrays.",
-            "Alias analysis is syntactic; hidden state in numpy/scipy trusted; dynamic check is sampling.",
+            "dicts, IMF objects, lists and arrays (BH-fraction targets included): arguments unchanged, results bit-identical to fresh builds "
+            "in the same interpreter and to the same call built first in a fresh interpreter, in-place routines return their arrays.",
+            "Alias analysis is syntactic (parameters, simple aliases, self attributes bound to parameters); hidden state in numpy/scipy trusted; dynamic check is sampling.",
             "DESIGN §6 C16"),
 }
 
